@@ -134,6 +134,12 @@ Definition holds_sched (a o : list N) : bool :=
       if ss_driver s =? 0 then let '(items, oc, _) := dec_run B3 (dec_new B3 root t stream (ss_q s)) in items_obs oc items
       else let '(items, oc, _) := rd_run B3 (rd_new B3 root (ss_q s) t stream) in items_obs oc items in
     match ss_fail s, o with
+    | None, oc :: p :: after :: n :: items =>
+        (* tokio's read_exact / read_to_end do not retry Interrupted (std's do): under the fsm decoder an interrupting
+           transport may surface as Io(Interrupted) after a prefix of the items; otherwise the unfragmented result *)
+        list_eqb o plain ||
+        ((ss_driver s =? 1) && existsb (fun e => match e with EIntr => true | _ => false end) (ss_evs s) &&
+         (oc =? 5) && (p =? kcode KInterrupted) && (after =? 0) && is_prefix_n items (skipn 4 plain))
     | None, _ => list_eqb o plain
     | Some (_, kind), oc :: p :: after :: n :: items =>
         (after =? 0) &&
